@@ -38,16 +38,16 @@ Notation CHILDREN := (ChildrenOk T tab_el tab_at tab_en check_fn float_fmt float
 (* a canonical root: as Canon, but the attributes of the root are read while the file version is still the placeholder
    Autosar_4_0_1, and they must be the header attributes from which parse_file_header derives `ver` silently *)
 Inductive RootCanon : etree -> Prop :=
-| root_canon e v401 nm attrs content mode named :
+| root_canon e v401 nm attrs content cm mode named :
     elem T (autosar_element T) = Val e -> version_of_ident "Autosar_4_0_1" = Some v401 ->
-    ElemNameOk tab_el (ed_name e) nm ->
+    CommentsOk cm -> ElemNameOk tab_el (ed_name e) nm ->
     AttrsOk T tab_at tab_en check_fn float_fmt float_parse v401 (autosar_element T, ed_type e) attrs ->
     (forall st, parse_file_header strict tab_at attrs st = Val (Ret tt (Parser.set_version st ver))) ->
     content_mode T (autosar_element T, ed_type e) = Val mode -> ShapeOk mode content ->
     CHILDREN (autosar_element T, ed_type e) mode [] [] content ->
     is_named_in_version T (autosar_element T, ed_type e) ver = Val named ->
     (named = true -> existsb (is_short T) content = true) ->
-    RootCanon (ENode (ed_name e) (autosar_element T, ed_type e) attrs content None).
+    RootCanon (ENode (ed_name e) (autosar_element T, ed_type e) attrs content cm).
 
 Lemma verify_end_ok st : at_rest st [] -> exists st', verify_end_of_input strict st = Val (Ret tt st') /\ same_core st st'.
 Proof.
@@ -55,11 +55,41 @@ Proof.
   cbn. eexists. split; [reflexivity|]. unfold same_core. cbn. rewrite EL. auto.
 Qed.
 
+Lemma mbind2_ret_step {A B C} (m : M A) (g : A -> M B) (K : B -> M C) st a s1 :
+  m st = Val (Ret a s1) -> mbind (mbind m g) K st = mbind (g a) K s1.
+Proof. intros E. unfold mbind. rewrite E. reflexivity. Qed.
+
+(* the tokens between the xml header and the content of the root: an optional comment, then the root's begin tag *)
+Lemma root_tokens n cm nm ats X tl d st2 (K : option (list N) * event -> M etree) :
+  CommentsOk cm -> (1 <= n)%nat ->
+  at_rest st2 ((comment_part cm 0 false ++ newline_indent 0) ++ 60 :: X) ->
+  (forall f line', exists l1 l2, lex_next (S f) (mk (60 :: X) line' None) = Val (LOk l1 (EvBegin nm (skipn 1 ats)) (mk tl l2 d))) ->
+  exists st3, mbind pnext (fun tok => mbind (skip_comments (S n) None tok) K) st2 = K (cm, EvBegin nm (skipn 1 ats)) st3 /\
+    l_rest (p_lex st3) = tl /\ l_deferred (p_lex st3) = d /\
+    p_version st3 = p_version st2 /\ p_warnings st3 = p_warnings st2 /\ p_standalone st3 = p_standalone st2.
+Proof.
+  intros CMO N1 AR HLEX. destruct cm as [c|]; cbn [comment_part app] in AR.
+  - destruct CMO as [CO UV].
+    destruct (pnext_of_lex st2 (newline_indent 0) (33 :: 45 :: 45 :: c ++ [45; 45] ++ 62 :: newline_indent 0 ++ 60 :: X) (EvComment c)
+                (newline_indent 0 ++ 60 :: X) None) as (sa1 & E1 & R1 & D1 & V1 & W1 & S1).
+    { unfold at_rest in *. destruct AR as [A1 A2]. split; [|exact A2]. rewrite A1. norm_goal. reflexivity. }
+    { reflexivity. }
+    { intros f line'. do 2 eexists.
+      pose proof (lex_comment f c (newline_indent 0 ++ 60 :: X) line' CO) as G. unfold comment_text in G. cbn [app] in G. rewrite <- !app_assoc in G. cbn [app] in G.
+      exact G. }
+    destruct (pnext_of_lex sa1 (newline_indent 0) X (EvBegin nm (skipn 1 ats)) tl d (conj R1 D1) eq_refl HLEX) as (st3 & E3 & R3 & D3 & V3 & W3 & S3).
+    exists st3. rewrite (mbind_ret_step _ _ _ _ _ E1). cbn [skip_comments]. rewrite (mbind2_ret_step _ _ _ _ _ _ E3).
+    destruct n as [|n']; [lia|]. cbn [skip_comments]. rewrite (utf8_lossy_valid c UV).
+    split; [reflexivity|]. repeat split; congruence.
+  - destruct (pnext_of_lex st2 (newline_indent 0) X (EvBegin nm (skipn 1 ats)) tl d AR eq_refl HLEX) as (st3 & E3 & R3 & D3 & V3 & W3 & S3).
+    exists st3. rewrite (mbind_ret_step _ _ _ _ _ E3). cbn [skip_comments]. split; [reflexivity|]. auto.
+Qed.
+
 Theorem file_roundtrip root sa body : RootCanon root -> SER root 0 false = Val body ->
   exists st, load strict T tab_el tab_at tab_en check_fn float_parse (xml_header sa ++ body) = Val (Ret root st) /\
-             p_warnings st = [] /\ p_version st = ver.
+             p_warnings st = [] /\ p_version st = ver /\ p_standalone st = sa.
 Proof.
-  intros RC SB. destruct RC as [e v401 nm attrs content mode named EE V401 EN AO HDR CM SH CK NV NAMED].
+  intros RC SB. destruct RC as [e v401 nm attrs content cm mode named EE V401 CMO EN AO HDR CM SH CK NV NAMED].
   set (rt := (autosar_element T, ed_type e)) in *. set (an := ed_name e) in *.
   pose proof EN as (TS & CN & FB).
   destruct (clean_name_props nm CN) as (NE & FN).
@@ -74,6 +104,7 @@ Proof.
   assert (ENM' : nm ++ ats = c1 :: (tl ++ ats)) by (rewrite ENM; reflexivity).
   set (bs := xml_header sa ++ body). set (n := List.length bs).
   assert (LB : (List.length body <= n)%nat) by (unfold n, bs; rewrite app_length; lia).
+  assert (N1 : (1 <= n)%nat) by (unfold n, bs; rewrite app_length; destruct sa as [[|]|]; cbn; lia).
   unfold load. rewrite V401, EE. unfold parse_arxml. fold n.
   set (st0 := init_pstate bs v401 an).
   (* 1. the xml header *)
@@ -86,88 +117,95 @@ Proof.
   rewrite (mbind_ret_step _ _ st1 tt (set_standalone st1 sa) eq_refl).
   set (st2 := set_standalone st1 sa).
   assert (AR2 : at_rest st2 body) by exact AR1.
-  destruct (ser_shape T tab_el tab_at tab_en float_fmt an rt attrs content nm mode ats 0%nat false body TS SA CM SH SB)
-    as [[EC EB]|(NEC & items & wsc & i' & il' & WSC & IS & TX & EB)]; cbv zeta in EB.
-  - (* <AUTOSAR .../> *)
-    subst content body. norm_in AR2.
-    assert (AR2' : at_rest st2 (newline_indent 0 ++ 60 :: (nm ++ ats) ++ 47 :: 62 :: [])).
-    { norm_goal. exact AR2. }
-    destruct (pnext_of_lex st2 (newline_indent 0) ((nm ++ ats) ++ 47 :: 62 :: []) (EvBegin nm (skipn 1 ats)) [] (Some nm) AR2' eq_refl)
-      as (st3 & E3 & R3 & D3 & V3 & W3).
-    { intros f0 line'. do 2 eexists.
-      rewrite (lex_empty_tag f0 (nm ++ ats) [] line' c1 (tl ++ ats) ENM' H47 H63 H33 INNER). rewrite SPLIT. reflexivity. }
-    rewrite (mbind_ret_step _ _ _ _ _ E3).
-    rewrite (mbind_ret_step _ _ st3 (@None (list N), EvBegin nm (skipn 1 ats)) st3 eq_refl). cbv beta iota.
+  (* common tail of both cases: from the begin event of the root to the end of the file *)
+  assert (FINISH : forall st3 content_bytes d,
+            l_rest (p_lex st3) = content_bytes -> l_deferred (p_lex st3) = d ->
+            p_version st3 = v401 -> p_warnings st3 = [] -> p_standalone st3 = sa ->
+            (forall st5, l_rest (p_lex st5) = content_bytes -> l_deferred (p_lex st5) = d -> p_version st5 = ver ->
+               exists st6, PE (S n) (S n) an rt attrs cm [] [] st5 = Val (Ret (ENode an rt attrs content cm) st6) /\ adv st5 st6 []) ->
+            exists st,
+              (mbind (lift (name_of tab_el nm)) (fun nm0 =>
+               mbind (autosar_name T) (fun an0 =>
+               match nm0 with
+               | Some n0 =>
+                 if (n0 =? an0)%N
+                 then mbind (root_type T) (fun rt0 =>
+                      mbind (parse_attribute_text strict T tab_at tab_en check_fn float_parse rt0 (skipn 1 ats)) (fun attributes =>
+                      mbind (parse_file_header strict tab_at attributes) (fun _ =>
+                      mbind (PE (S n) (S n) an0 rt0 attributes cm [] []) (fun root0 =>
+                      mbind (verify_end_of_input strict) (fun _ => ret root0)))))
+                 else hard InvalidArxmlFileHeader 0 0
+               | None => hard InvalidArxmlFileHeader 0 0
+               end))) st3 = Val (Ret (ENode an rt attrs content cm) st) /\
+              p_warnings st = [] /\ p_version st = ver /\ p_standalone st = sa).
+  { intros st3 cb d R3 D3 V3 W3 S3 HPE.
     unfold name_of at 1. rewrite FB. change (mbind (lift (Val (Some an))) ?k0 st3) with (k0 (Some an) st3). cbv beta.
     unfold autosar_name. rewrite EE. change (mbind (mbind (lift (Val e)) ?g) ?k0 st3) with (k0 (ed_name e) st3). cbv beta iota.
     fold an. rewrite N.eqb_refl.
     unfold root_type, et_new. rewrite EE. cbn [bind]. fold rt. change (mbind (lift (Val rt)) ?k0 st3) with (k0 rt st3). cbv beta.
-    destruct (attrs_roundtrip_lexed strict T tab_at tab_en check_fn float_fmt float_parse v401 rt attrs st3 ats AO
-                ltac:(cbn in V3; congruence) SA) as (c & PA).
+    destruct (attrs_roundtrip_lexed strict T tab_at tab_en check_fn float_fmt float_parse v401 rt attrs st3 ats AO V3 SA) as (c & PA).
     rewrite (mbind_ret_step _ _ _ _ _ PA). rewrite (mbind_ret_step _ _ _ _ _ (HDR _)).
     set (st5 := Parser.set_version (set_compat st3 c) ver).
-    assert (EPE : exists st6, PE (S n) (S n) an rt attrs None [] [] st5 = Val (Ret (ENode an rt attrs [] None) st6) /\ adv st5 st6 []).
-    { rewrite PE_S.
-      destruct (deferred_end_step strict T tab_el tab_at tab_en check_fn float_parse ver (PE n (S n)) n an rt attrs None [] [] [] false [] st5 nm named
-                  EN NV ltac:(intros Hn; specialize (NAMED Hn); discriminate NAMED) D3 eq_refl) as (st6 & E6 & A6).
-      exists st6. split; [exact E6|]. change (l_rest (p_lex st5)) with (l_rest (p_lex st3)) in A6. rewrite R3 in A6. exact A6. }
-    destruct EPE as (st6 & E6 & (AR6 & V6 & W6)).
+    destruct (HPE st5 R3 D3 eq_refl) as (st6 & E6 & (AR6 & V6 & W6 & S6)).
     rewrite (mbind_ret_step _ _ _ _ _ E6).
-    destruct (verify_end_ok st6 AR6) as (st7 & E7 & (C7a & C7b & C7c)).
+    destruct (verify_end_ok st6 AR6) as (st7 & E7 & (C7a & C7b & C7c & C7d)).
     rewrite (mbind_ret_step _ _ _ _ _ E7).
-    exists st7. split; [reflexivity|]. split.
-    + rewrite C7c, W6. cbn [p_warnings Parser.set_version set_compat st5]. rewrite W3. exact PW1.
-    + rewrite C7b, V6. reflexivity.
+    exists st7. split; [reflexivity|]. split; [rewrite C7c, W6; exact W3|]. split; [rewrite C7b, V6; reflexivity|].
+    rewrite C7d, S6. exact S3. }
+  destruct (ser_shape T tab_el tab_at tab_en float_fmt an rt attrs content cm nm mode ats 0%nat false body TS SA CM SH SB)
+    as [[EC EB]|(NEC & items & wsc & i' & il' & WSC & IS & TX & EB)]; cbv zeta in EB.
+  - (* <AUTOSAR .../> *)
+    subst content body.
+    assert (AR2' : at_rest st2 ((comment_part cm 0 false ++ newline_indent 0) ++ 60 :: (nm ++ ats) ++ 47 :: 62 :: [])).
+    { norm_in AR2. norm_goal. exact AR2. }
+    match goal with |- context [mbind pnext (fun tok => mbind (skip_comments (S n) None tok) ?K0) st2] =>
+      destruct (root_tokens n cm nm ats ((nm ++ ats) ++ 47 :: 62 :: []) [] (Some nm) st2 K0 CMO N1 AR2') as (st3 & E3 & R3 & D3 & V3 & W3 & S3)
+    end.
+    { intros f0 line'. do 2 eexists.
+      rewrite (lex_empty_tag f0 (nm ++ ats) [] line' c1 (tl ++ ats) ENM' H47 H63 H33 INNER). rewrite SPLIT. reflexivity. }
+    rewrite E3. cbv beta iota.
+    apply (FINISH st3 [] (Some nm) R3 D3 ltac:(rewrite V3; exact PV1) ltac:(rewrite W3; exact PW1) ltac:(rewrite S3; reflexivity)).
+    intros st5 R5 D5 V5. rewrite PE_S.
+    destruct (deferred_end_step strict T tab_el tab_at tab_en check_fn float_parse ver (PE n (S n)) n an rt attrs cm [] [] [] false None [] st5 nm named
+                EN NV ltac:(intros Hn; specialize (NAMED Hn); discriminate NAMED) D5 V5) as (st6 & E6 & A6).
+    exists st6. split; [exact E6|]. rewrite R5 in A6. exact A6.
   - (* <AUTOSAR ...> content </AUTOSAR> *)
-    subst body. norm_in AR2.
-    assert (AR2' : at_rest st2 (newline_indent 0 ++ 60 :: (nm ++ ats) ++ 62 :: items ++ closing wsc nm ++ [])).
-    { norm_goal. rewrite app_nil_r. exact AR2. }
+    subst body.
+    assert (AR2' : at_rest st2 ((comment_part cm 0 false ++ newline_indent 0) ++ 60 :: (nm ++ ats) ++ 62 :: items ++ closing wsc nm ++ [])).
+    { norm_in AR2. norm_goal. rewrite app_nil_r. exact AR2. }
     assert (LASTI : last (nm ++ ats) 0 <> 47).
     { destruct ats as [|a0 ats'].
       - rewrite app_nil_r. destruct (exists_last NE) as (l0 & x & EL). rewrite EL, last_last. rewrite EL in FN.
         apply Forall_app in FN as [_ FX]. inversion FX as [|? ? HX _]; subst. tauto.
       - rewrite last_app_ne by discriminate. rewrite ALAST by discriminate. discriminate. }
-    destruct (pnext_of_lex st2 (newline_indent 0) ((nm ++ ats) ++ 62 :: items ++ closing wsc nm ++ []) (EvBegin nm (skipn 1 ats))
-                (items ++ closing wsc nm ++ []) None AR2' eq_refl) as (st3 & E3 & R3 & D3 & V3 & W3).
+    match goal with |- context [mbind pnext (fun tok => mbind (skip_comments (S n) None tok) ?K0) st2] =>
+      destruct (root_tokens n cm nm ats ((nm ++ ats) ++ 62 :: items ++ closing wsc nm ++ []) (items ++ closing wsc nm ++ []) None st2 K0 CMO N1 AR2')
+        as (st3 & E3 & R3 & D3 & V3 & W3 & S3)
+    end.
     { intros f0 line'. do 2 eexists.
       rewrite (lex_begin_tag f0 (nm ++ ats) (items ++ closing wsc nm ++ []) line' c1 (tl ++ ats) ENM' H47 H63 H33 INNER LASTI).
       rewrite SPLIT. reflexivity. }
-    rewrite (mbind_ret_step _ _ _ _ _ E3).
-    rewrite (mbind_ret_step _ _ st3 (@None (list N), EvBegin nm (skipn 1 ats)) st3 eq_refl). cbv beta iota.
-    unfold name_of at 1. rewrite FB. change (mbind (lift (Val (Some an))) ?k0 st3) with (k0 (Some an) st3). cbv beta.
-    unfold autosar_name. rewrite EE. change (mbind (mbind (lift (Val e)) ?g) ?k0 st3) with (k0 (ed_name e) st3). cbv beta iota.
-    fold an. rewrite N.eqb_refl.
-    unfold root_type, et_new. rewrite EE. cbn [bind]. fold rt. change (mbind (lift (Val rt)) ?k0 st3) with (k0 rt st3). cbv beta.
-    destruct (attrs_roundtrip_lexed strict T tab_at tab_en check_fn float_fmt float_parse v401 rt attrs st3 ats AO
-                ltac:(cbn in V3; congruence) SA) as (c & PA).
-    rewrite (mbind_ret_step _ _ _ _ _ PA). rewrite (mbind_ret_step _ _ _ _ _ (HDR _)).
-    set (st5 := Parser.set_version (set_compat st3 c) ver).
+    rewrite E3. cbv beta iota.
+    apply (FINISH st3 (items ++ closing wsc nm ++ []) None R3 D3 ltac:(rewrite V3; exact PV1) ltac:(rewrite W3; exact PW1) ltac:(rewrite S3; reflexivity)).
+    intros st5 R5 D5 V5.
     (* sizes: the fuel |bs|+1 is enough *)
     destruct (items_size T tab_el tab_at tab_en check_fn float_fmt float_parse ver i' il' rt mode content [] [] items) as (SZ1 & SZ2 & SZ3);
       [intros c0 b0 _ CA0 SB0; apply (canon_size_all T tab_el tab_at tab_en check_fn float_fmt float_parse ver c0 CA0 i' il' b0 SB0)|exact CK|exact IS|].
     assert (LI : (List.length items <= n)%nat).
     { unfold n, bs, closing. repeat (rewrite app_length || cbn [List.length]). lia. }
-    assert (EPE : exists st6, PE (S n) (S n) an rt attrs None [] [] st5 = Val (Ret (ENode an rt attrs content None) st6) /\ adv st5 st6 []).
-    { rewrite PE_S.
-      destruct (children_loop strict T tab_el tab_at tab_en check_fn float_fmt float_parse ver n (S n) (maxd content)
-                  (elem_step strict T tab_el tab_at tab_en check_fn float_fmt float_parse ver (maxd content) n (S n) ltac:(lia))
-                  an rt attrs nm mode named [] i' il' wsc EN CM NV WSC content [] [] false [] st5 (S n) items [] CK) as (st6 & E6 & A6).
-      { intros c0 HIn. split; [apply maxd_in; exact HIn|pose proof (maxw_in _ _ HIn); lia]. }
-      { exact IS. }
-      { exact TX. }
-      { unfold at_rest. change (p_lex st5) with (p_lex st3). rewrite R3, D3. auto. }
-      { reflexivity. }
-      { lia. }
-      { reflexivity. }
-      { exact NAMED. }
-      exists st6. cbn [app] in E6. split; [exact E6|exact A6]. }
-    destruct EPE as (st6 & E6 & (AR6 & V6 & W6)).
-    rewrite (mbind_ret_step _ _ _ _ _ E6).
-    destruct (verify_end_ok st6 AR6) as (st7 & E7 & (C7a & C7b & C7c)).
-    rewrite (mbind_ret_step _ _ _ _ _ E7).
-    exists st7. split; [reflexivity|]. split.
-    + rewrite C7c, W6. cbn [p_warnings Parser.set_version set_compat st5]. rewrite W3. exact PW1.
-    + rewrite C7b, V6. reflexivity.
+    rewrite PE_S.
+    destruct (children_loop strict T tab_el tab_at tab_en check_fn float_fmt float_parse ver n (S n) (maxd content)
+                (elem_step strict T tab_el tab_at tab_en check_fn float_fmt float_parse ver (maxd content) n (S n) ltac:(lia))
+                an rt attrs cm nm mode named [] i' il' wsc EN CM NV WSC content [] [] false [] st5 (S n) items [] CK) as (st6 & E6 & A6).
+    { intros c0 HIn. split; [apply maxd_in; exact HIn|pose proof (maxw_in _ _ HIn); lia]. }
+    { exact IS. }
+    { exact TX. }
+    { unfold at_rest. rewrite R5, D5. auto. }
+    { exact V5. }
+    { lia. }
+    { reflexivity. }
+    { exact NAMED. }
+    exists st6. cbn [app] in E6. split; [exact E6|exact A6].
 Qed.
 
 (* through ArxmlFile::serialize: it first rewrites the root's xsi:schemaLocation for the file version (set_version);
@@ -176,7 +214,7 @@ Theorem serialize_load_roundtrip root sa bs : RootCanon root ->
   Serializer.set_version T tab_at check_fn ver root = Val root ->
   serialize_file T tab_el tab_at tab_en check_fn float_fmt ver sa root = Val bs ->
   exists st, load strict T tab_el tab_at tab_en check_fn float_parse bs = Val (Ret root st) /\
-             p_warnings st = [] /\ p_version st = ver.
+             p_warnings st = [] /\ p_version st = ver /\ p_standalone st = sa.
 Proof.
   intros RC SV SF. unfold serialize_file in SF. rewrite SV in SF. cbn [bind] in SF.
   destruct (SER root 0 false) as [body| |] eqn:SB; try discriminate SF. cbn [bind] in SF. injection SF as <-.
@@ -190,7 +228,7 @@ Corollary serialize_fixpoint root sa bs st : RootCanon root ->
   load strict T tab_el tab_at tab_en check_fn float_parse bs = Val (Ret root st) ->
   serialize_file T tab_el tab_at tab_en check_fn float_fmt (p_version st) sa root = Val bs.
 Proof.
-  intros RC SV SF L. destruct (serialize_load_roundtrip root sa bs RC SV SF) as (st' & L' & _ & V). rewrite L in L'.
+  intros RC SV SF L. destruct (serialize_load_roundtrip root sa bs RC SV SF) as (st' & L' & _ & V & _). rewrite L in L'.
   injection L' as <-. rewrite V. exact SF.
 Qed.
 
